@@ -6,6 +6,7 @@ import (
 	"fmt"
 	"runtime"
 	"runtime/debug"
+	"strings"
 	"testing"
 
 	"rendsim/kernel"
@@ -39,6 +40,9 @@ func execC11(t *testing.T, p Plan, src kernel.Source) Result {
 	return inBubble(t, p.Seed, src, func(w *kernel.World, res *Result) {
 		w.LogEvents = p.X["log"] != 0
 		w.SegMode = p.Seg
+		// containment includes the shared pools of protocol objects: an error path that hands
+		// a header back twice lets the damage reach other connections later
+		w.Run.Poison = true
 		stack.Build(w, p.Cfg, nil)
 		viol := func(rule, class, format string, a ...interface{}) {
 			if res.V == nil {
@@ -92,6 +96,10 @@ func execC11(t *testing.T, p Plan, src kernel.Source) Result {
 		}
 		if n := rendGoroutines(); n != base {
 			viol("goroutines", class, "%s: %d goroutines executing repository code before the connection, %d after it ended", desc, base, n)
+			return
+		}
+		if faults := w.Run.TakeFaults(); len(faults) > 0 {
+			viol("pool_misuse", class, "%s: rend handed a pooled protocol object back twice (%s); it can now be given to two connections at once", desc, strings.Join(faults, "; "))
 			return
 		}
 		// replies, if any, must be well-formed frames of the protocol the first byte selected
@@ -304,7 +312,7 @@ func genC11(seed uint64, tier string) Plan {
 func init() {
 	register(&Prop{
 		ID: "C11", Gen: genC11, Exec: execC11, Enumerate: enumC11, Level: "fault_enumeration",
-		Rule:       "fault = arbitrary / malformed bytes from a client followed by EOF. Enumerated part: binary headers for every opcode 0..255 x key length {0,1,2,250,251,65535} x extras length {0,4,8,9,255} x total body {0, key+extras-1, key+extras, key+extras+1, 2^31, 2^32-1}, followed by 0 / total / key+extras / key+extras+3 body bytes (thorough: the whole grid; quick: every contradictory frame for the opcodes rend implements plus a ninth of the rest); seeded part: valid pipelines of both protocols mutated by bit flips (biased to headers), truncation at a drawn offset, length-field edits, garbage prefixes, pure garbage, single-byte edits, repeated tails, extreme text numbers. Oracle: quiescence is reached (a spin is caught by the watchdog), a frame with total body < key + extras is answered or the connection closed without waiting for more input, bytes allocated while decoding (runtime.MemStats.TotalAlloc delta) stay below 1 MiB + 4x the sizes the frame consistently declares, after EOF rend closes the connection and no goroutine executing repository code is left over, anything rend did send is well-formed, and another and a new connection are still served. Coverage-guided fuzzing (named in the property's quantifier) is a different technique and is not done. Every case injects malformed input; distinct = distinct plan hash",
+		Rule:       "fault = arbitrary / malformed bytes from a client followed by EOF. Enumerated part: binary headers for every opcode 0..255 x key length {0,1,2,250,251,65535} x extras length {0,4,8,9,255} x total body {0, key+extras-1, key+extras, key+extras+1, 2^31, 2^32-1}, followed by 0 / total / key+extras / key+extras+3 body bytes (thorough: the whole grid; quick: every contradictory frame for the opcodes rend implements plus a ninth of the rest); seeded part: valid pipelines of both protocols mutated by bit flips (biased to headers), truncation at a drawn offset, length-field edits, garbage prefixes, pure garbage, single-byte edits, repeated tails, extreme text numbers. Oracle: quiescence is reached (a spin is caught by the watchdog), a frame with total body < key + extras is answered or the connection closed without waiting for more input, bytes allocated while decoding (runtime.MemStats.TotalAlloc delta) stay below 1 MiB + 4x the sizes the frame consistently declares, after EOF rend closes the connection and no goroutine executing repository code is left over, no pooled protocol object was handed back twice (poisoning pools), anything rend did send is well-formed, and another and a new connection are still served. Coverage-guided fuzzing (named in the property's quantifier) is a different technique and is not done. Every case injects malformed input; distinct = distinct plan hash",
 		Real:       realFullStack,
 		Stub:       stubFullStack,
 		FaultKinds: []string{"malformed_input"},
